@@ -69,6 +69,9 @@ func SelectorValidator(maxAcceptedDepth int64) graphsync.OnIncomingRequestHook {
 // ValidateMaxRecursionDepth examines the given selector node and verifies
 // recursive selectors are limited to the given fixed depth
 func ValidateMaxRecursionDepth(node ipld.Node, maxAcceptedDepth int64) error {
+	if node == nil {
+		return errors.New("no selector")
+	}
 
 	return traversal.WalkMatching(node, maxDepthSelector, func(progress traversal.Progress, visited ipld.Node) error {
 		if visited.Kind() != ipld.Kind_Map || visited.Length() != 1 {
